@@ -93,6 +93,30 @@ impl Drop for OpGuard<'_> {
     }
 }
 
+/// Marker of a call that got no reply within two virtual hours (paused clock): on the paused
+/// clock that much time passes only if nothing can run, so the call can never complete.
+pub const NO_REPLY: &str = "NO-REPLY within two virtual hours";
+
+pub static NO_REPLIES: Mutex<Vec<String>> = Mutex::new(Vec::new());
+
+/// Bounds a client call on the paused clock (so that a wedged server shows up as a verdict,
+/// not as a harness that never finishes). Real-time runs rely on their wall-clock watchdogs.
+async fn bounded<T>(paused: bool, what: &'static str, fut: impl Future<Output = Result<T, Status>>) -> Result<T, Status> {
+    if !paused {
+        return fut.await;
+    }
+    match tokio::time::timeout(std::time::Duration::from_secs(7200), fut).await {
+        Ok(r) => r,
+        Err(_) => {
+            let mut v = NO_REPLIES.lock().unwrap_or_else(|e| e.into_inner());
+            if v.len() < 100 {
+                v.push(what.to_string());
+            }
+            Err(Status::deadline_exceeded(NO_REPLY))
+        }
+    }
+}
+
 fn status_out(s: &Status) -> Out {
     Out::Status(s.code() as i32, s.message().to_string())
 }
@@ -190,9 +214,10 @@ impl Cx {
         Fut: Future<Output = Result<tonic::Response<T>, Status>>,
         M: FnOnce(&T) -> Out,
     {
+        let kind = op.kind();
         let g = self.call(op);
         let polls = Arc::clone(&g.polls);
-        let counted = CountPolls { inner: fut, polls };
+        let counted = CountPolls { inner: bounded(self.w.paused, kind, fut), polls };
         let res = AssertUnwindSafe(counted).catch_unwind().await;
         match res {
             Ok(Ok(resp)) => {
@@ -355,7 +380,7 @@ impl Cx {
         }
         let polls = Arc::clone(&g.polls);
         let res = AssertUnwindSafe(CountPolls {
-            inner: c.publish(req),
+            inner: bounded(self.w.paused, "Publish", c.publish(req)),
             polls,
         })
         .catch_unwind()
@@ -447,7 +472,7 @@ impl Cx {
         };
         let g = self.call(Op::Pull { sub: sub.into(), max, ri });
         let polls = Arc::clone(&g.polls);
-        let res = AssertUnwindSafe(CountPolls { inner: c.pull(req), polls }).catch_unwind().await;
+        let res = AssertUnwindSafe(CountPolls { inner: bounded(self.w.paused, "Pull", c.pull(req)), polls }).catch_unwind().await;
         match res {
             Ok(Ok(resp)) => {
                 let r = resp.into_inner();
@@ -524,7 +549,7 @@ impl Cx {
         let mut c = self.subscriber();
         let polls = Arc::clone(&g.polls);
         let fut = c.streaming_pull(tokio_stream::wrappers::UnboundedReceiverStream::new(rx));
-        let res = AssertUnwindSafe(CountPolls { inner: fut, polls }).catch_unwind().await;
+        let res = AssertUnwindSafe(CountPolls { inner: bounded(self.w.paused, "StreamOpen", fut), polls }).catch_unwind().await;
         match res {
             Ok(Ok(resp)) => {
                 self.ret(g, Out::Ok);
